@@ -288,6 +288,11 @@ func valueLeaves(v ssa.Value, chain []*ssa.Call, depth int) []leafVal {
 				}
 			}
 		}
+		// a parameter of a function literal that is handed to an in-package helper which calls it (c.with(func(cur …) {…})):
+		// the values the helper passes at that position
+		if ls := closureParamLeaves(x, depth); ls != nil {
+			return ls
+		}
 	case *ssa.Call:
 		if ls := helperResultLeaves(x, 0, chain, depth); ls != nil {
 			return ls
@@ -349,6 +354,65 @@ func helperResultLeaves(call *ssa.Call, idx int, chain []*ssa.Call, depth int) [
 	instrs(cal, func(b *ssa.BasicBlock, i int, in ssa.Instruction) {
 		if ret, ok := in.(*ssa.Return); ok && idx < len(ret.Results) {
 			out = append(out, valueLeaves(returnedValue(ret, idx), sub, depth+1)...)
+		}
+	})
+	return out
+}
+
+// closureParamLeaves: p is a parameter of a function literal F. Every use of F's closure value as an argument of a static
+// in-package callee H is followed into H: the calls of the corresponding parameter of H supply p's values.
+func closureParamLeaves(p *ssa.Parameter, depth int) []leafVal {
+	f := p.Parent()
+	if f == nil || f.Parent() == nil {
+		return nil
+	}
+	pidx := -1
+	for k, q := range f.Params {
+		if q == p {
+			pidx = k
+		}
+	}
+	var out []leafVal
+	instrs(f.Parent(), func(b *ssa.BasicBlock, i int, in ssa.Instruction) {
+		// the closure value: a MakeClosure, or the function itself when it captures nothing
+		var fv ssa.Value
+		var uses []ssa.Instruction
+		if mc, ok := in.(*ssa.MakeClosure); ok && mc.Fn == ssa.Value(f) && mc.Referrers() != nil {
+			fv = mc
+			uses = *mc.Referrers()
+		} else if call, ok := in.(*ssa.Call); ok {
+			for _, a := range call.Call.Args {
+				if a == ssa.Value(f) {
+					fv = f
+					uses = []ssa.Instruction{call}
+				}
+			}
+		}
+		if fv == nil {
+			return
+		}
+		for _, ref := range uses {
+			call, ok := ref.(*ssa.Call)
+			if !ok {
+				continue
+			}
+			h := staticCallee(&call.Call)
+			if h == nil || h.Blocks == nil {
+				continue
+			}
+			for ai, a := range call.Call.Args {
+				if a != fv || ai >= len(h.Params) {
+					continue
+				}
+				hp := h.Params[ai]
+				instrs(h, func(_ *ssa.BasicBlock, _ int, in2 ssa.Instruction) {
+					c2, ok := in2.(*ssa.Call)
+					if !ok || c2.Call.Value != ssa.Value(hp) || pidx >= len(c2.Call.Args) {
+						return
+					}
+					out = append(out, valueLeaves(c2.Call.Args[pidx], []*ssa.Call{call}, depth+1)...)
+				})
+			}
 		}
 	})
 	return out
